@@ -166,7 +166,7 @@ if ck.replay:
     if cases[0].startswith("tsan_stress"):
         tsan_replay = dict(kv.split("=") for kv in cases[0].split()[1:]); cases = corpus[:1]
 else:
-    NSC = 9000 if ck.thorough() else 1100          # scenarios; each is run under several schedules
+    NSC = 7000 if ck.thorough() else 1100          # scenarios; each is run under several schedules
     for k in range(NSC):
         spur = (k % 3 == 2)
         if k % 8 == 5:
@@ -206,7 +206,7 @@ if exe is None:
 elif drv is None:
     ck.violation("extracted model/driver does not build", {"correspondence": "ocaml/C10_driver.ml", "log": dlog[-2000:]}, no_input=True)
 else:
-    rc1, out1 = verif.sh([exe, casefile], timeout=3000, env=dict(os.environ, ASAN_OPTIONS="detect_leaks=0"))
+    rc1, out1 = verif.sh([exe, casefile], timeout=(2400 if ck.thorough() else 420), env=dict(os.environ, ASAN_OPTIONS="detect_leaks=0"))
     impl = out1.splitlines()
     if rc1 != 0 or len(impl) != len(cases):
         ck.violation("trace harness failed (rc=%d, %d lines for %d cases)" % (rc1, len(impl), len(cases)),
@@ -299,11 +299,23 @@ else:
     else: plans = [(1500 if ck.thorough() else 300, str(1 + rng.below(1 << 30)), None, None) for _ in range(4 if ck.thorough() else 2)]
     for rounds, sd, osc, ornd in plans:
         cmd = [exe_tsan, str(rounds), sd] + ([osc, ornd] if osc is not None else [])
-        rct, outt = verif.sh(cmd, timeout=1200, env=dict(os.environ, TSAN_OPTIONS="halt_on_error=0 report_signal_unsafe=0"))
+        rct, outt = verif.sh(cmd, timeout=(600 if ck.thorough() else 180), env=dict(os.environ, TSAN_OPTIONS="halt_on_error=0 report_signal_unsafe=0"))
         nr = sum(1 for l in outt.splitlines() if l.startswith("R ") or l.startswith("BAD "))
         tsan_rounds += nr; tsan_runs.append({"rounds": rounds, "seed": sd, "completed": nr, "rc": rct})
         i = outt.find("WARNING: ThreadSanitizer")
         bad = [l for l in outt.splitlines() if l.startswith("BAD ")]
+        wd = re.search(r"^C10-WATCHDOG scenario=(\S+) round=(\S+) threads=(\S+) seed=(\S+) rounds=(\S+)", outt, flags=re.M)
+        if wd or rct == 124:
+            found = True
+            scn, rnd_, thr = (wd.group(1), wd.group(2), wd.group(3)) if wd else ("?", "?", "?")
+            if not wd:
+                m = re.findall(r"^ROUND (\d+) (\d+) (\d+)", outt, flags=re.M)
+                if m: scn, rnd_, thr = m[-1]
+            ck.violation("free-running run (real threads) does not terminate: lost wake-up / deadlock in the thread pool (scenario %s round %s, %s threads)" % (scn, rnd_, thr),
+                         {"case": "tsan_stress rounds=%s seed=%s scenario=%s round=%s" % (rounds, sd, scn, rnd_), "threads": thr,
+                          "watchdog": wd.group(0) if wd else "stage timeout", "log_tail": outt[-1500:],
+                          "replay_cmd": "bin/check C10 --replay <this file>  (or ./tsan_stress %s %s %s %s)" % (rounds, sd, scn, rnd_)}, key="tsan:hang")
+            break
         if i >= 0:
             found = True
             m = re.findall(r"^ROUND (\d+) (\d+) (\d+)", outt[:i], flags=re.M)
